@@ -694,6 +694,8 @@ class BVK:
             s.add(z3.Not(goal))
             rr = s.check()
             r = str(rr)
+            from . import xsolve
+            xsolve.cross(s, name, r)
             m = None
             if rr == z3.sat:
                 mod = s.model()
